@@ -338,7 +338,7 @@ func GenPackage(r *rand.Rand, i int, nsets int) *GenPkg {
 	}
 	imp, depPrint := "", `""`
 	if withDep {
-		imp = "\nimport \"prog/dep\"\n"
+		imp = "\nimport \"" + g.Name + "/dep\"\n"
 		depPrint = "sorted(dep.Reg)"
 	}
 	g.Files["main.go"] = hdr + imp + mainAnchor + "\nfunc main() {\n\tprintln(\"REG:\" + sorted(names) + \"|DEP:\" + " + depPrint + ")\n}\n"
@@ -360,6 +360,7 @@ func GenPackage(r *rand.Rand, i int, nsets int) *GenPkg {
 		dd.Files = append(dd.Files, a)
 		g.Dirs = append(g.Dirs, dd)
 	}
+	g.Files["go.mod"] = "module " + g.Name + "\n\ngo 1.20\n"
 	// tag sets: the empty set first, then random subsets of the user pool, sometimes with tags
 	// from the built-in vocabulary (a user may pass any tag).
 	g.TagSets = append(g.TagSets, nil)
